@@ -132,6 +132,16 @@ func outcomes(gen string) []outcome {
 	}
 	out = append(out, outcome{name: "plain-error-percent", apply: func(r *Reply) *common.ErrorResponse { r.Err = errors.New("95%d full %s 100%% %!v(x) %"); return nil }, failure: true, text: "95%d full %s 100%% %!v(x) %"})
 	out = append(out, outcome{name: "panic-percent", apply: func(r *Reply) *common.ErrorResponse { r.Panic = "boom %d %s %"; return nil }, failure: true, text: "boom %d %s %"})
+	// a typed nil *ErrorResponse returned as the error (the classic Go slip), and statuses no HTTP response can carry:
+	// a failure status and an error for the caller, never a crashed connection
+	out = append(out, outcome{name: "typed-nil-error-response", apply: func(r *Reply) *common.ErrorResponse { r.Err = (*common.ErrorResponse)(nil); return nil }, failure: true})
+	for _, st := range []int32{0, 99, 1000, -1} {
+		e, _ := newErrorResponse(2)
+		st := st
+		e.Status = &st
+		ee := e
+		out = append(out, outcome{name: fmt.Sprintf("error-response-impossible-status-%d", st), apply: func(r *Reply) *common.ErrorResponse { r.Err = ee; return nil }, failure: true})
+	}
 	out = append(out, outcome{name: "plain-error", apply: func(r *Reply) *common.ErrorResponse { r.Err = errors.New("boom-plain"); return nil }, failure: true, text: "boom-plain"})
 	out = append(out, outcome{name: "wrapped-error-response", apply: func(r *Reply) *common.ErrorResponse {
 		e, _ := newErrorResponse(3)
